@@ -6,54 +6,51 @@ import Upnp.Lemmas.C10Names
 namespace Upnp.C10
 open Upnp PyDict Upnp.C09
 
-/-! ### the `changes` dict of a well-formed body -/
+/-! ### the `changes` dict -/
 
-theorem set_fresh {κ ν : Type} [DecidableEq κ] (d : PyDict κ ν) (k : κ) (v : ν) (h : ∀ p ∈ d, p.1 ≠ k) :
-    set d k v = d ++ [(k, v)] := by
-  induction d with
-  | nil => rfl
-  | cons p r ih =>
-    obtain ⟨k', v'⟩ := p
-    have hk : k' ≠ k := h (k', v') List.mem_cons_self
-    simp only [PyDict.set, hk, if_false, List.cons_append]
-    rw [ih fun q hq => h q (List.mem_cons_of_mem _ hq)]
+def pairsOf (b : Body) : List (Str × Str) := (kids b).map fun c => (tagOf c, c.text)
 
-theorem foldl_set_fresh (l : List Child) (acc : PyDict Str Str)
-    (hwf : ∀ c ∈ l, childWF c = true) (hnd : (l.map (·.name)).Nodup)
-    (hacc : ∀ c ∈ l, ∀ p ∈ acc, p.1 ≠ tagOf c) :
-    l.foldl (fun a c => set a (tagOf c) c.text) acc = acc ++ l.map fun c => (tagOf c, c.text) := by
-  induction l generalizing acc with
-  | nil => simp
-  | cons c r ih =>
-    simp only [List.foldl_cons, List.map_cons]
-    rw [set_fresh acc _ _ (hacc c List.mem_cons_self)]
-    simp only [List.map_cons, List.nodup_cons] at hnd
-    rw [ih _ (fun c' hc' => hwf c' (List.mem_cons_of_mem _ hc')) hnd.2]
-    · simp
-    · intro c' hc' p hp
-      rcases List.mem_append.mp hp with h | h
-      · exact hacc c' (List.mem_cons_of_mem _ hc') p h
-      · simp only [List.mem_singleton] at h
-        subst h
-        intro heq
-        have := tagOf_name c c' (hwf c List.mem_cons_self) (hwf c' (List.mem_cons_of_mem _ hc')) heq
-        exact hnd.1 (this ▸ List.mem_map_of_mem hc')
+theorem changesOf_eq (b : Body) : changesOf b = (pairsOf b).foldl (fun acc p => set acc p.1 p.2) [] := by
+  simp [changesOf, pairsOf, kids, List.foldl_map]
+
+theorem changesOf_nodup (b : Body) : (keys (changesOf b)).Nodup := by
+  rw [changesOf_eq]; exact nodup_keys_foldl_set _ _ List.nodup_nil
+
+theorem changesOf_key (b : Body) (t : Str) (ht : t ∈ keys (changesOf b)) : ∃ c ∈ kids b, tagOf c = t := by
+  rw [changesOf_eq, mem_keys_foldl_set] at ht
+  rcases ht with h | h
+  · cases h
+  · simp only [pairsOf, List.map_map, List.mem_map, Function.comp] at h
+    obtain ⟨c, hc, rfl⟩ := h
+    exact ⟨c, hc, rfl⟩
+
+theorem changesOf_get (b : Body) (t : Str) : get? (changesOf b) t = get? (pairsOf b).reverse t := by
+  rw [changesOf_eq, get?_foldl_set]; simp
 
 theorem bodyWF_iff (b : Body) :
-    bodyWF b = true ↔ (∀ c ∈ kids b, childWF c = true) ∧ ((kids b).map (·.name)).Nodup := by
-  simp [bodyWF, nodupB_iff, List.all_eq_true]
+    bodyWF b = true ↔ (∀ c ∈ kids b, childWF c = true)
+      ∧ (∀ c ∈ kids b, ∀ c' ∈ kids b, c.name = c'.name → c.ns = c'.ns) := by
+  simp only [bodyWF, Bool.and_eq_true, List.all_eq_true, Bool.or_eq_true, bne_iff_ne, ne_eq, beq_iff_eq]
+  constructor
+  · rintro ⟨h1, h2⟩
+    refine ⟨h1, fun c hc c' hc' e => ?_⟩
+    rcases h2 c hc c' hc' with h | h
+    · exact absurd e h
+    · exact h
+  · rintro ⟨h1, h2⟩
+    refine ⟨h1, fun c hc c' hc' => ?_⟩
+    by_cases e : c.name = c'.name
+    · exact Or.inr (h2 c hc c' hc' e)
+    · exact Or.inl e
 
-theorem changesOf_wf (b : Body) (hb : bodyWF b = true) :
-    changesOf b = (kids b).map fun c => (tagOf c, c.text) := by
-  obtain ⟨hwf, hnd⟩ := (bodyWF_iff b).mp hb
-  have := foldl_set_fresh (kids b) [] hwf hnd (by intro _ _ p hp; cases hp)
-  simpa [changesOf, kids] using this
+theorem tagOf_eq_of_name {c c' : Child} (hn : c.name = c'.name) (hs : c.ns = c'.ns) : tagOf c = tagOf c' := by
+  simp [tagOf, hn, hs]
 
 /-! ### the loop, by variable name -/
 
-/-- the (variable, text) assignments of a body among the declared names -/
+/-- the (variable, text) assignments of the `changes` dict among the declared names -/
 def assigns (names : List Str) (b : Body) : List (Str × Str) :=
-  (kids b).filterMap fun c => if names.contains c.name then some (c.name, c.text) else none
+  (changesOf b).filterMap fun p => (resolveName names p.1).map fun n => (n, p.2)
 
 def applyNamed (tick : Nat) : List (Str × Str) → List Var → List Str → List Var × List Str
   | [], vars, ch => (vars, ch)
@@ -61,20 +58,17 @@ def applyNamed (tick : Nat) : List (Str × Str) → List Var → List Str → Li
     let u := updateVar vars n text tick
     applyNamed tick r u.1 (if u.2 then ch ++ [n] else ch)
 
-theorem applyChanges_named (names : List Str) (hn : ∀ n ∈ names, braceFree n = true) (tick : Nat)
-    (l : List Child) (hwf : ∀ c ∈ l, childWF c = true) (vars : List Var) (ch : List Str) :
-    applyChanges names tick (l.map fun c => (tagOf c, c.text)) vars ch
-      = applyNamed tick (l.filterMap fun c => if names.contains c.name then some (c.name, c.text) else none) vars ch := by
-  induction l generalizing vars ch with
+theorem applyChanges_named (names : List Str) (tick : Nat) (ch : List (Str × Str)) (vars : List Var) (acc : List Str) :
+    applyChanges names tick ch vars acc
+      = applyNamed tick (ch.filterMap fun p => (resolveName names p.1).map fun n => (n, p.2)) vars acc := by
+  induction ch generalizing vars acc with
   | nil => rfl
-  | cons c r ih =>
-    have hr := fun c' hc' => hwf c' (List.mem_cons_of_mem _ hc')
-    simp only [List.map_cons, applyChanges, resolve_tagOf names hn c (hwf c List.mem_cons_self), List.filterMap_cons]
-    by_cases hc : names.contains c.name = true
-    · simp only [hc, if_true, applyNamed]
-      exact ih hr _ _
-    · simp only [hc, if_false]
-      exact ih hr _ _
+  | cons p r ih =>
+    obtain ⟨tag, text⟩ := p
+    simp only [applyChanges, List.filterMap_cons]
+    cases resolveName names tag with
+    | none => exact ih _ _
+    | some n => simp only [Option.map_some, applyNamed]; exact ih _ _
 
 theorem setUpnpValue_decl (v : Var) (text : Str) (tick : Nat) : (setUpnpValue v text tick).1.decl = v.decl := by
   unfold setUpnpValue; split
